@@ -28,10 +28,23 @@ EXPLANATION = (
     "itself is (anchors x method); "
     "(7) every output template of abbreviate_space lies in the grammar of parse_abbreviated_size; (8) client.py hands "
     "reserved_space / expire.override_lease_duration / expire.cutoff_date through the matching parser to the "
-    "matching StorageServer argument. "
+    "matching StorageServer argument, and per path of get_anonymous_storage_server the local handed to StorageServer never "
+    "still holds the tahoe.cfg text, is never replaced by a constant unless it was found None/empty (the constant for "
+    "an absent reserved_space being 0), and StorageServer is not reached after an exception of the parser was handled; "
+    "(9) accept/reject decision: parse_duration and parse_abbreviated_size reach their result only on paths that "
+    "established that the pattern matched, and parse_abbreviated_size returns None (also by falling off its end) only on "
+    "paths that established that the value is None/empty; (10) iso_utc_time_to_seconds interpreted on each documented "
+    "date + 'T00:00:00' (regex answered by the regex engine, timegm symbolic) returns exactly timegm(y, m, d, 0, 0, 0) "
+    "with nothing added; (11) abbreviate_space interpreted on sample sizes in both modes prints <number> <unit> whose "
+    "unit, read with the parser's own multiplier table, gives back the size to the printed precision, and an integer "
+    "text that lies in the grammar parses back to exactly the size. "
     "Undecided: \\d accepting non-ASCII digits and str.upper()/lower() case-folding oddities (noted in thorough "
-    "mode), the arithmetic of calendar.timegm, ConfigParser's own whitespace stripping.")
-TECHNIQUE = "static analysis: constant folding of tables and regexes, regex-language enumeration, finite-domain interpretation of the suffix rewriting"
+    "mode), the arithmetic of calendar.timegm, ConfigParser's own whitespace stripping, the exception type with which "
+    "a malformed value is rejected (any raise counts), which unit abbreviate_space picks for a size (thresholds: "
+    "'0.00 MB' for 2500 bytes is faithful to its printed precision), which of SI/binary the SI flag selects, the "
+    "sub-second branch of iso_utc_time_to_seconds (not reachable from tahoe.cfg), what the client does with "
+    "expire.mode / expire.enabled / sharetypes (not value parsing).")
+TECHNIQUE = "static analysis: constant folding of tables and regexes, regex-language enumeration, must-precede path queries on the CFG, finite-domain AST interpretation of the suffix rewriting, the date conversion and the size printer"
 
 TF = "util.time_format"
 AB = "util.abbreviate"
@@ -300,6 +313,200 @@ def match_succeeded(fnorm, n, lab, call):
     return False
 
 
+def ungated_results(fn, fnorm, targets, mc):
+    """[(node, witness)] for the target nodes of fn that are reachable on a path which never took an edge that
+    establishes that the regex application `mc` produced a match."""
+    tl = list(targets)
+    return find_path_avoiding(fn.cfg(), lambda n: any(n is t for t in tl),
+                              gate_edge=lambda n, lab: match_succeeded(fnorm, n, lab, mc))
+
+
+def none_returns(fn, fnorm):
+    """Nodes of fn that make it return None: `return`, `return None` (also through a local) and statements that fall
+    off the end of the body."""
+    cfg = fn.cfg()
+    out = []
+    for n in cfg.find(is_return):
+        v = n.ast.value
+        v = fnorm.resolve(n, v) if v is not None else None
+        if v is None or (isinstance(v, ast.Constant) and v.value is None):
+            out.append(n)
+    for (p, _lab) in cfg.predecessors(cfg.exit):
+        if not is_return(p) and p.kind not in ("entry",):
+            out.append(p)
+    return out
+
+
+def empty_value_facts(p):
+    """Normal forms of the edge facts that say 'the value p is absent or empty'."""
+    nz = N()
+    out = set()
+    for s in ("%s is None", "%s == ''", "not %s", "len(%s) == 0", "%s in (None, '')", "%s in ('', None)",
+              "%s in [None, '']", "%s in ['', None]", "%s in {None, ''}", "%s in {'', None}"):
+        out.add(nz.cmp(parse_expr(s % p), True))
+    return out
+
+
+class _Raised(Exception):
+    def __init__(self, what):
+        Exception.__init__(self, what)
+        self.what = what
+
+
+class _Closure:
+    def __init__(self, node, env):
+        self.node, self.env = node, env
+
+
+class _Opaque:
+    """A value the interpretation does not model (e.g. a precompiled pattern)."""
+
+    def __init__(self, what):
+        self.what = what
+
+
+class TimegmValue:
+    """calendar.timegm(<fields>) + offset, kept symbolic (the arithmetic of timegm is not modelled)."""
+
+    def __init__(self, fields, offset=0):
+        self.fields, self.offset = fields, offset
+
+    def __add__(self, o):
+        if isinstance(o, bool) or not isinstance(o, (int, float)):
+            raise NotConstant("timegm value + %r" % (o,))
+        return TimegmValue(self.fields, self.offset + o)
+    __radd__ = __add__
+
+    def __sub__(self, o):
+        if isinstance(o, bool) or not isinstance(o, (int, float)):
+            raise NotConstant("timegm value - %r" % (o,))
+        return TimegmValue(self.fields, self.offset - o)
+
+
+class LocalEval(ConstEval):
+    """ConstEval for one function body run on concrete sample arguments, plus: nested helper functions (closures),
+    `raise` (reported as _Raised), float/round, f-strings, a regex application of the function answered by the stdlib
+    regex engine on the pattern the rule extracted, match-object accessors, calendar.timegm kept symbolic.  It records
+    the return statements it executes."""
+
+    _BUILTINS = dict(ConstEval._BUILTINS, float=float, round=round, divmod=divmod, repr=repr, isinstance=isinstance)
+
+    def __init__(self, folder, module, uses=()):
+        ConstEval.__init__(self, folder, module)
+        self.uses = list(uses)
+        self.returned = []
+
+    def run(self, fn, args, kwargs=None):
+        kwargs = dict(kwargs or {})
+        a = fn.node.args
+        if a.vararg or a.kwarg:
+            raise NotConstant("varargs in %s" % fn.qual)
+        pos = list(a.posonlyargs) + list(a.args)
+        dflt = dict(zip([x.arg for x in pos][len(pos) - len(a.defaults):], a.defaults))
+        dflt.update({x.arg: d for x, d in zip(a.kwonlyargs, a.kw_defaults) if d is not None})
+        env = {}
+        for i, x in enumerate(pos + list(a.kwonlyargs)):
+            if i < len(args) and i < len(pos):
+                env[x.arg] = args[i]
+            elif x.arg in kwargs:
+                env[x.arg] = kwargs[x.arg]
+            elif x.arg in dflt:
+                try:
+                    env[x.arg] = self.expr(dflt[x.arg], {})
+                except NotConstant:
+                    env[x.arg] = _Opaque("default of " + x.arg)
+            else:
+                raise NotConstant("missing argument %s" % x.arg)
+        return self._body(fn.node.body, env)
+
+    def _body(self, body, env):
+        from sa.tables import _Return
+        try:
+            self.block(body, env)
+        except _Return as rv:
+            return rv.v
+        return None
+
+    def stmt(self, st, env):
+        if isinstance(st, ast.FunctionDef):
+            self.tick()
+            env[st.name] = _Closure(st, env)
+            return
+        if isinstance(st, ast.Raise):
+            self.tick()
+            raise _Raised(ast.unparse(st.exc) if st.exc is not None else "re-raise")
+        if isinstance(st, ast.Return):
+            self.returned.append(st)
+        return ConstEval.stmt(self, st, env)
+
+    def expr(self, e, env):
+        try:
+            return ConstEval.expr(self, e, env)
+        except _Raised:
+            raise
+
+    def _expr(self, e, env):
+        if isinstance(e, ast.JoinedStr):
+            parts = []
+            for v in e.values:
+                if isinstance(v, ast.Constant):
+                    parts.append(v.value)
+                else:
+                    if v.conversion not in (-1, 115):
+                        raise NotConstant("f-string conversion")
+                    spec = self._expr(v.format_spec, env) if v.format_spec is not None else ""
+                    parts.append(format(self.expr(v.value, env), spec))
+            return "".join(parts)
+        if isinstance(e, ast.Call):
+            for u in self.uses:
+                if e is u.call:
+                    subj = self.expr(u.subject, env)
+                    if not isinstance(subj, str):
+                        raise NotConstant("regex applied to %r" % (subj,))
+                    return u.apply(subj)
+            f = e.func
+            if isinstance(f, ast.Name) and isinstance(env.get(f.id), _Closure):
+                clo = env[f.id]
+                sub = LocalEval(self.folder, self.module, self.uses)
+                sub.steps = self.steps
+                a = clo.node.args
+                names = [x.arg for x in list(a.posonlyargs) + list(a.args)]
+                args = [self.expr(x, env) for x in e.args]
+                kwargs = {k.arg: self.expr(k.value, env) for k in e.keywords if k.arg}
+                if a.vararg or a.kwarg or a.kwonlyargs or len(args) > len(names):
+                    raise NotConstant("call of nested %s" % f.id)
+                env2 = dict(clo.env)
+                nd = len(a.defaults)
+                for i, nm in enumerate(names):
+                    if i < len(args):
+                        env2[nm] = args[i]
+                    elif nm in kwargs:
+                        env2[nm] = kwargs[nm]
+                    elif i >= len(names) - nd:
+                        env2[nm] = self.expr(a.defaults[i - (len(names) - nd)], clo.env)
+                    else:
+                        raise NotConstant("missing argument %s" % nm)
+                v = sub._body(clo.node.body, env2)
+                self.steps = sub.steps
+                self.returned.extend(sub.returned)
+                return v
+            if call_tail(e) == "timegm" and len(e.args) == 1 and not e.keywords:
+                t = self.expr(e.args[0], env)
+                if not isinstance(t, tuple):
+                    raise NotConstant("timegm of %r" % (t,))
+                return TimegmValue(t)
+            if isinstance(f, ast.Name) and f.id in ("int", "float") and f.id not in env and len(e.args) == 1:
+                v = self.expr(e.args[0], env)
+                if isinstance(v, TimegmValue):
+                    return TimegmValue(v.fields, int(v.offset) if f.id == "int" else float(v.offset))
+                return {"int": int, "float": float}[f.id](v)
+            if isinstance(f, ast.Attribute) and f.attr in ("group", "groups", "groupdict", "start", "end", "span"):
+                recv = self.expr(f.value, env)
+                if isinstance(recv, re.Match):
+                    return getattr(recv, f.attr)(*[self.expr(x, env) for x in e.args])
+        return ConstEval._expr(self, e, env)
+
+
 LEAD_JUNK = ("x", "-", "1.", "1,", "= ", "x\n")
 TRAIL_JUNK = ("x", " x", ".5", "\nx", " 7")
 
@@ -442,6 +649,79 @@ def group_index(s):
     return None
 
 
+def plumbing_paths(r, fn, sscall, var, kw, parser, key):
+    """Follow the local `var` along every path of fn into StorageServer(kw=var): it must not arrive (a) still holding
+    the configuration text, (b) with the parsed value replaced by a constant on a path that did not find it None /
+    empty, (c) after the parser's rejection (an exception leaving the parser call) was handled and execution went on.
+    A constant default for the absent reserved_space must be 0 (nothing reserved)."""
+    cfg = fn.cfg()
+    fnorm = FlowNorm(fn)
+    targets = [n for n in cfg.nodes if any(c is sscall for c in node_calls(n))]
+    if len(targets) != 1:
+        raise AnchorVanished("%s: the StorageServer(...) call is not one statement" % fn.qual)
+    target = targets[0]
+    varname = ast.Name(id=var, ctx=ast.Load())
+
+    def classify(val, prev):
+        if val is None:
+            return "other"
+        if isinstance(val, ast.Constant):
+            if val.value is None:
+                return "none"
+            return "default:%r" % (val.value,) if prev.split(":")[0] in ("undef", "none", "empty", "default") else "clobbered"
+        tails = {call_tail(c) for c in ast.walk(val) if isinstance(c, ast.Call)}
+        if parser in tails:
+            return "parsed"
+        if tails & set(PARSERS):
+            return "other"
+        if "get_config" in tails:
+            return "raw"
+        if any(isinstance(x, ast.Name) and x.id == var for x in ast.walk(val)):
+            return prev
+        return "other"
+
+    def transfer(n, lab, nxt, st):
+        kind, rej = st
+        if lab == "exc":
+            if n.kind == "stmt" and any(call_tail(c) == parser for c in node_calls(n)):
+                rej = True
+            return (kind, rej)
+        if n.kind == "stmt" and var in node_stores(n):
+            kind = classify(fnorm._def_value(n, var), kind)
+        elif n.kind == "test" and isinstance(lab, tuple) and kind in ("parsed", "raw"):
+            f = fnorm.edge_fact(n, lab)
+            vn = fnorm.norm(n, varname)
+            if f and ((f[0] == "is" and set(f[1:]) == {vn, "None"}) or (f[0] == "false" and f[1] == vn)):
+                kind = "empty"
+        return (kind, rej)
+
+    visited, parent = explore(cfg, ("undef", False), transfer)
+    r.count(len(visited))
+    seen = set()
+    for (nid, st) in sorted(visited, key=lambda x: (x[0], x[1][0], x[1][1])):
+        if nid != target.id:
+            continue
+        kind, rej = st
+        w = witness(cfg, parent, (nid, st))
+        if rej and "rej" not in seen:
+            seen.add("rej")
+            r.violation(fn, fn.loc(sscall), "StorageServer(%s=...) is reached after an exception of %s was handled: a "
+                        "[storage]%s value the parser rejects does not stop the node, it is silently replaced" % (
+                            kw, parser, key), w)
+        if kind in seen:
+            continue
+        seen.add(kind)
+        if kind == "raw":
+            r.violation(fn, fn.loc(sscall), "on one path StorageServer(%s=...) receives the text of [storage]%s as read from "
+                        "tahoe.cfg, not the value of %s" % (kw, key, parser), w)
+        elif kind == "clobbered":
+            r.violation(fn, fn.loc(sscall), "on one path the value %s produced for [storage]%s is overwritten by a constant "
+                        "without having been found None/empty, before it reaches StorageServer(%s=...)" % (parser, key, kw), w)
+        elif kind.startswith("default:") and kw == "reserved_space":
+            r.require(kind in ("default:0", "default:0.0"), fn, fn.loc(sscall), "an absent [storage]%s reaches "
+                      "StorageServer(%s=...) as %s, not as 0 (nothing reserved)" % (key, kw, kind[8:]), w)
+
+
 def run(ctx: Context):
     idx = ctx.idx
     folder = get_folder(idx)
@@ -529,6 +809,11 @@ def run(ctx: Context):
                 tabs = [o for o in ops if o is sub]
                 ok = len(nums) == 1 and len(tabs) == 1
             r.require(ok, fn, fn.loc(n.ast), "result %s is not int(<number group>) * time_map[<unit>]" % src(fn, n.ast.value))
+        # the result is computed only after the match was seen to succeed (a failed match is rejected by the branch
+        # that raises, not by whatever the group access on None happens to do; a well-formed value is not rejected)
+        for (n, w) in ungated_results(fn, fnorm, rets, mc):
+            r.violation(fn, fn.loc(n.ast), "parse_duration reaches its result on a path that did not establish that the "
+                        "pattern matched: the accept/reject decision of the grammar is inverted or ignored", w)
         dur = {"pattern": pattern, "flags": flags, "table": tmv, "fn": fn, "use": use}
 
     # =================================================================== 2
@@ -667,10 +952,23 @@ def run(ctx: Context):
                 else:
                     ctx.note("C48.3: suffix %r has no frozen meaning in the rule table" % w)
         # result
-        for n in cfg.find(is_return):
+        nones = none_returns(fn, fnorm)
+        valued = [n for n in cfg.find(is_return) if not any(n is x for x in nones)]
+        if not valued:
+            r.violation(fn, fn.loc(), "parse_abbreviated_size never returns int(<number>) * multiplier: every value is "
+                        "read as None (no reservation)")
+        for (n, w) in ungated_results(fn, fnorm, valued, mc):
+            r.violation(fn, fn.loc(n.ast), "parse_abbreviated_size reaches its result on a path that did not establish that "
+                        "the pattern matched: the accept/reject decision of the grammar is inverted or ignored", w)
+        # None (= no reservation configured) is returned only for the absent / empty value
+        empties = empty_value_facts(param)
+        for (n, w) in find_path_avoiding(cfg, lambda x: any(x is y for y in nones),
+                                         gate_edge=lambda x, lab: fnorm.edge_fact(x, lab) in empties):
+            r.violation(fn, fn.loc(n.ast), "parse_abbreviated_size returns None (read by client.py as 'nothing reserved') on "
+                        "a path that did not establish that the value is absent or empty: a non-empty value is silently "
+                        "read as no reservation instead of being parsed or rejected", w)
+        for n in valued:
             v = fnorm.resolve(n, n.ast.value)
-            if isinstance(v, ast.Constant) and v.value is None:
-                continue
             ok = isinstance(v, ast.BinOp) and isinstance(v.op, ast.Mult)
             if ok:
                 ops = [fnorm.resolve(n, v.left), fnorm.resolve(n, v.right)]
@@ -802,6 +1100,30 @@ def run(ctx: Context):
             r.require(m is not None and m.group("year") + "-" + m.group("month") + "-" + m.group("day") == d
                       and m.group("hour") + m.group("minute") + m.group("second") == "000000",
                       iso.qual + "[%s]" % d, iso.loc(mc), "documented cutoff date %r is not read as midnight of that day" % d)
+        # a date without a fraction is exactly timegm(year, month, day, 0, 0, 0): the function body interpreted on each
+        # documented date (regex answered by the regex engine, timegm kept symbolic) adds nothing to it
+        for d in dates:
+            text = d + "T00:00:00"
+            ev = LocalEval(folder, iso.module, [iuse])
+            try:
+                out = ev.run(iso, [text])
+            except _Raised as ex:
+                r.violation(iso.qual + "[%s]" % d, iso.loc(mc), "iso_utc_time_to_seconds(%r) (documented cutoff date %r) "
+                            "raises %s" % (text, d, ex.what))
+                continue
+            except NotConstant as ex:
+                raise AnalysisError("cannot interpret iso_utc_time_to_seconds on %r: %s" % (text, ex))
+            r.count(ev.steps)
+            fields = tuple(int(x) for x in d.split("-")) + (0, 0, 0)
+            if not isinstance(out, TimegmValue):
+                r.violation(iso, iso.loc(mc), "iso_utc_time_to_seconds(%r) evaluates to %r, not to the calendar.timegm value"
+                            % (text, out))
+                continue
+            r.require(tuple(out.fields[:6]) == fields, iso, iso.loc(tg[0]), "iso_utc_time_to_seconds(%r) calls timegm with "
+                      "the fields %r, expected %r" % (text, tuple(out.fields[:6]), fields))
+            r.require(out.offset == 0, iso, iso.loc(tg[0]), "iso_utc_time_to_seconds(%r) (no fraction given) returns "
+                      "timegm(...) %+g: the documented cutoff date %r is not read as midnight UTC of that day" % (
+                          text, out.offset, d))
         date = {"pattern": pattern, "rast": rast, "how": how, "iso": iso, "mc": mc, "fn": fn, "use": iuse, "rx": rx, "dates": dates}
 
     # =================================================================== 6
@@ -914,6 +1236,79 @@ def run(ctx: Context):
             r.require(bool(accepted), pr.qual + "[%s]" % tpl, f.loc(n), "no output of the form %r (e.g. %r) is in the grammar %r of "
                       "parse_abbreviated_size: what the node prints does not parse back" % (tpl, samples[0], size["pattern"]))
 
+    # =================================================================== 9
+    with ctx.rule("C48.9", "R11", "abbreviate_space interpreted on sample sizes: every printed text is <number> <unit> whose unit, "
+                  "read with parse_abbreviated_size's own multiplier table, gives back the size to the printed precision; "
+                  "an integer text that lies in the grammar parses back to exactly the size", expected=2) as r:
+        if not size:
+            raise AnalysisError("the size grammar could not be extracted (see C48.3)")
+        from fractions import Fraction
+        pr = idx.func(AB + ":abbreviate_space")
+        a = pr.node.args
+        pnames = [x.arg for x in list(a.posonlyargs) + list(a.args)]
+        if not pnames:
+            raise AnchorVanished("abbreviate_space takes no size argument")
+        modes = [()]
+        if len(pnames) >= 2:
+            if len(pnames) > 2:
+                raise AnalysisError("abbreviate_space takes arguments the rule does not know: %s" % pnames[2:])
+            modes = [(True,), (False,)]
+        probes = [0, 1, 999, 1000, 1023, 1024]
+        for base in (1000, 1024):
+            for k in range(1, 7):
+                probes += [base ** k, (5 * base ** k) // 2, 999 * base ** k]
+        probes = sorted(set(probes + [3 * 10 ** 21]))
+        hit = set()
+        own_returns = [n for f in [pr] + list(pr.nested.values()) for n in func_own_nodes(f) if isinstance(n, ast.Return)]
+
+        def unit_meaning(word):
+            w = word.upper()
+            ks = size["reached"].get(w)
+            if not ks or len(ks) != 1 or list(ks)[0] not in size["table"]:
+                return None
+            return size["table"][list(ks)[0]]
+
+        for mode in modes:
+            r.site(pr, pr.node, "mode %s" % (dict(zip(pnames[1:], mode)) or "default"))
+            for s in probes:
+                ev = LocalEval(folder, pr.module)
+                try:
+                    out = ev.run(pr, [s] + list(mode))
+                except _Raised as ex:
+                    r.violation(pr, pr.loc(), "abbreviate_space(%s) raises %s" % (", ".join(map(repr, (s,) + mode)), ex.what))
+                    continue
+                except NotConstant as ex:
+                    raise AnalysisError("cannot interpret abbreviate_space(%s): %s" % (", ".join(map(repr, (s,) + mode)), ex))
+                r.count(ev.steps)
+                hit.update(id(x) for x in ev.returned)
+                lastret = ev.returned[-1] if ev.returned else pr.node
+                callrepr = "abbreviate_space(%s)" % ", ".join(map(repr, (s,) + mode))
+                mm = re.fullmatch(r"(\d+(?:\.(\d+))?)\s*([A-Za-z]*)", out) if isinstance(out, str) else None
+                if not mm:
+                    r.violation(pr, pr.loc(lastret), "%s prints %r, which is not <number> <unit>" % (callrepr, out))
+                    continue
+                mult = unit_meaning(mm.group(3))
+                if mult is None:
+                    r.violation(pr, pr.loc(lastret), "%s prints %r: the unit %r is not one parse_abbreviated_size knows" % (
+                        callrepr, out, mm.group(3)))
+                    continue
+                digits = len(mm.group(2) or "")
+                err = abs(Fraction(mm.group(1)) * mult - s)
+                tol = Fraction(mult, 2 * 10 ** digits) * Fraction(1000001, 1000000)
+                if digits == 0:
+                    tol = 0 if isinstance(s, int) else Fraction(mult)
+                r.require(err <= tol, pr, pr.loc(lastret), "%s prints %r, which read with the parser's multiplier for %r (%d) "
+                          "means %s bytes, not %d" % (callrepr, out, mm.group(3), mult, Fraction(mm.group(1)) * mult, s))
+                if digits == 0:
+                    back = size_parse(out)
+                    r.require(back is None or back == s, pr, pr.loc(lastret), "%s prints %r, which parse_abbreviated_size "
+                              "reads as %r" % (callrepr, out, back))
+        missed = [n for n in own_returns if id(n) not in hit and not (
+            isinstance(n.value, ast.Constant) and isinstance(n.value.value, str) and not n.value.value[:1].isdigit())]
+        if missed:
+            raise AnalysisError("abbreviate_space: the sample sizes never reach the output at %s" % ", ".join(
+                pr.loc(n) for n in missed))
+
     # =================================================================== 8
     with ctx.rule("C48.8", "R11/R4", "client.py: reserved_space, expire.override_lease_duration and expire.cutoff_date reach "
                   "StorageServer through parse_abbreviated_size, parse_duration and parse_date respectively", expected=3) as r:
@@ -948,6 +1343,9 @@ def run(ctx: Context):
                           and all(isinstance(y, ast.Constant) for y in x.args[:2])}
                     r.require(("storage", key) in ks, fn, fn.loc(c), "%s is applied to %s, not to [storage]%s" % (
                         parser, sorted(ks), key))
+            # path-sensitive: what the local holds on each path into StorageServer(...)
+            if isinstance(v, ast.Name):
+                plumbing_paths(r, fn, ss[0], v.id, kw, parser, key)
 
     if ctx.thorough:
         ctx.note("C48 (informational, undecided): \\d in the duration/size/date patterns also accepts non-ASCII decimal "
